@@ -41,16 +41,16 @@ type Op struct {
 	Pay  int    `json:"pay,omitempty"` // sponsor actor (+1)
 	Tam  string `json:"tam,omitempty"` // tamper: payload|sig|ownerfield
 	// selectors / numbers
-	W   int     `json:"w,omitempty"`   // which order of the data: 0 = meta.OrderId, k = Orders[len-k]
-	N   int64   `json:"n,omitempty"`   // amount / size / status
-	V   int     `json:"v,omitempty"`   // validator actor (+1)
-	V2  int     `json:"v2,omitempty"`  // second validator (+1)
-	To  int     `json:"to,omitempty"`  // recipient actor (+1)
-	L   []int   `json:"l,omitempty"`   // actor list (tx addresses, ro dids)
-	L2  []int   `json:"l2,omitempty"`  // actor list (rw dids)
-	Acc int     `json:"acc,omitempty"` // accused SP (+1)
-	Mis string  `json:"mis,omitempty"` // fault report mismatch kind
-	Dup int     `json:"dup,omitempty"` // deliver the same tx bytes again this many times
+	W    int    `json:"w,omitempty"`    // which order of the data: 0 = meta.OrderId, k = Orders[len-k]
+	N    int64  `json:"n,omitempty"`    // amount / size / status
+	V    int    `json:"v,omitempty"`    // validator actor (+1)
+	V2   int    `json:"v2,omitempty"`   // second validator (+1)
+	To   int    `json:"to,omitempty"`   // recipient actor (+1)
+	L    []int  `json:"l,omitempty"`    // actor list (tx addresses, ro dids)
+	L2   []int  `json:"l2,omitempty"`   // actor list (rw dids)
+	Acc  int    `json:"acc,omitempty"`  // accused SP (+1)
+	Mis  string `json:"mis,omitempty"`  // fault report mismatch kind
+	Dup  int    `json:"dup,omitempty"`  // deliver the same tx bytes again this many times
 	Sid  bool   `json:"sid,omitempty"`  // the JWS signer acts as a sid DID (key document of actor Own) instead of its did:key
 	Slot int    `json:"slot,omitempty"` // complete/migrate: act as the holder of the Slot-th open (resp. completed) shard of the data
 	Note string `json:"note,omitempty"`
